@@ -513,7 +513,43 @@ class Container:
         if st0.kind == "table_store" and off is not None:
             r_off = ff.resolve(off)
             want_off = f"self.{self.entries_attr}[{norm(ff.resolve(st0.index))}].offset"
-            if norm(r_off) == want_off:
+
+            def paired_with_index(expr):
+                """`expr` is the element (or its .offset) that one `next(((n, e[.offset]) for n, e in enumerate(<table>) if ..))` pairs with
+                the index the entry is stored at: by construction <table>[n] is e"""
+                want_attr = None
+                if isinstance(expr, ast.Attribute) and expr.attr == "offset" and isinstance(expr.value, ast.Name):
+                    nm, want_attr = expr.value.id, "elem"
+                elif isinstance(expr, ast.Name):
+                    nm, want_attr = expr.id, "offset"
+                else:
+                    return False
+                idx = st0.index
+                if not isinstance(idx, ast.Name):
+                    return False
+                for a_ in walk_no_nested(fn.node):
+                    if not (isinstance(a_, ast.Assign) and len(a_.targets) == 1 and isinstance(a_.targets[0], ast.Tuple) and isinstance(a_.value, ast.Call) and norm(a_.value.func) == "next"
+                            and a_.value.args and isinstance(a_.value.args[0], ast.GeneratorExp) and isinstance(a_.value.args[0].elt, ast.Tuple)):
+                        continue
+                    tn = [t.id if isinstance(t, ast.Name) else None for t in a_.targets[0].elts]
+                    g = a_.value.args[0]
+                    if idx.id not in tn or nm not in tn or len(g.generators) != 1 or len(g.elt.elts) != len(tn):
+                        continue
+                    gen = g.generators[0]
+                    it = gen.iter
+                    if not (isinstance(it, ast.Call) and norm(it.func) == "enumerate" and len(it.args) == 1 and not it.keywords and self.is_entries(it.args[0])
+                            and isinstance(gen.target, ast.Tuple) and len(gen.target.elts) == 2 and all(isinstance(x, ast.Name) for x in gen.target.elts)):
+                        continue
+                    n_, e_ = gen.target.elts[0].id, gen.target.elts[1].id
+                    ei, en = g.elt.elts[tn.index(idx.id)], g.elt.elts[tn.index(nm)]
+                    if not (isinstance(ei, ast.Name) and ei.id == n_):
+                        continue
+                    if want_attr == "elem" and isinstance(en, ast.Name) and en.id == e_:
+                        return True
+                    if want_attr == "offset" and norm(en) == f"{e_}.offset":
+                        return True
+                return False
+            if norm(r_off) == want_off or paired_with_index(off) or paired_with_index(r_off):
                 rep.ok("container-size", f"add_block: entry.offset = {want_off} (the slot it takes over)", nontrivial=True)
             else:
                 rep.fail("container-size", mod, "Tdf.add_block", fresh[new_entry],
